@@ -84,6 +84,8 @@ def generate(ctx):
         for seq in itertools.product(range(4), repeat=L):
             nmol = sum(1 for k in seq if k != 3)
             for pi, perm in enumerate(perms):
+                if ctx.quick() and L == maxlen and pi % 2 == 1:
+                    continue          # quick tier: three of the six load orders at the longest length
                 yield {"kind": "system", "cls": "exhaustive", "vel": (L + pi) % 2 == 0, "coordseed": L * 7 + pi,
                        "species": EXH, "blocks": list(seq), "load": list(perm),
                        "ops": _ops_all(nmol) if pi == 0 else _ops_all(nmol)[:1 + min(2 * nmol + 2, 6)]}
